@@ -515,8 +515,11 @@ def main(argv=None):
             os.makedirs(os.path.join(VERIF, 'replays'), exist_ok=True)
             for (cls, vsig), (item, v) in list(byclass.items())[:4]:
                 sb = 90 if tier == 'quick' else 240
+                smax = 600
+                if hasattr(mod, 'SHRINK'):
+                    sb, smax = mod.SHRINK.get(prop, (sb, smax))
                 try:
-                    sh = ex.submit(_shrink_job, (item['tape'], (cls, vsig), sb, 600)).result(timeout=sb + 120)
+                    sh = ex.submit(_shrink_job, (item['tape'], (cls, vsig), sb, smax)).result(timeout=sb + 600)
                 except Exception as e2:
                     sh = {'values': item['tape'], 'execs': 0, 'reproduced': False, 'error': repr(e2)}
                 values = sh['values']
